@@ -308,6 +308,29 @@ class StreamsExcFamily(ScenarioFamily):
 
         scn = StreamsFamily("x", "asyncio", 0, 0).generate(seed, index, tier)
         scn["c15"] = {"stage": "h2-events"}
+        rg = gen.mk_rng(seed, "c15goaway")
+        if rg.random() < 0.35:
+            # a GOAWAY at any moment with any last-stream-id, also one that disowns
+            # streams the server has already answered in part (no server should; the
+            # property says 'whatever bytes a server sends')
+            n = len(scn["callers"])
+            ep = next(iter(scn["net"]["endpoints"].values()))
+            when = rg.choice([{"after_headers": rg.randint(1, n)},
+                              {"after_headers": rg.randint(1, n),
+                               "delay": rg.choice([0.0005, 0.002, 0.01, 0.03, 0.1])},
+                              {"t": rg.choice([0.001, 0.01, 0.05])}])
+            ep["h2"].setdefault("events", []).append(
+                {"when": when, "do": "goaway", "disown": True,
+                 "last": rg.choice(["below", "below", "zero", "equal", "above", 1, 1, 3]),
+                 "code": rg.choice([0, 0, 1, 2, 11]), "close": rg.random() < 0.5})
+            scn["hostile"] = True
+            for c in scn["callers"]:
+                for op in c["ops"]:
+                    plan = op.get("resp") or {}
+                    if plan.get("body_len", 0) > 0 and rg.random() < 0.7:
+                        # bodies that are still arriving when the GOAWAY is read
+                        plan["h2_frame"] = rg.choice([50, 200, 1000])
+                        plan["h2_gap"] = rg.choice([0.002, 0.01])
         return scn
 
     def post(self, res, scn):
